@@ -45,3 +45,7 @@ end Cfdp.Udp
 
 open Cfdp.Udp in
 #print axioms C16
+open Cfdp.Udp in
+#print axioms receive_window
+open Cfdp.Udp in
+#print axioms bufferAfter_length
